@@ -97,7 +97,7 @@ class BicepsSubscriptionAsync(ActionBasedSubscription):
         inf = HeaderInformationBlock(
             action=subscription_end.action,
             addr_to=self.end_to_address or self.notify_to_address,
-            reference_parameters=self.end_to_ref_params or self.notify_ref_params,
+            reference_parameters=self.end_to_ref_params if self.end_to_address else self.notify_ref_params,
         )
         message = self._msg_factory.mk_soap_message(inf, payload=subscription_end)
         url = self._end_to_url or self.notify_to_url
